@@ -520,10 +520,111 @@ fn blocking_runs(iterations: usize) -> (u64, Option<String>) {
     (runs, None)
 }
 
+// ---------------------------------------------------------------------------------------------
+// Thread level: failing tasks on REAL threads report into one scope state (TerminateGuard::set_err
+// through the hook scope::verif::VScopeState); every interleaving at the scheduling points of
+// zksync_concurrency::verif (before each acquisition of the error slot's mutex, at the end of
+// signal::Once::send, i.e. right after the scope context has been cancelled).
+
+#[derive(Clone, Copy, Debug)]
+enum TBody {
+    /// fails on its own
+    Fail(scope::verif::VFailure),
+    /// fails because it notices, lock-free, that the scope has been cancelled (so some other task
+    /// failed before it)
+    FailAfterCancel(scope::verif::VFailure),
+}
+
+fn thread_scenarios() -> Vec<(&'static str, Vec<TBody>)> {
+    use scope::verif::VFailure::{Err as E, Panic as P};
+    use TBody::*;
+    vec![
+        ("a panics; b errs after noticing the cancellation", vec![Fail(P), FailAfterCancel(E(2))]),
+        ("a errs; b errs after noticing the cancellation", vec![Fail(E(1)), FailAfterCancel(E(2))]),
+        ("a errs; b panics independently", vec![Fail(E(1)), Fail(P)]),
+        ("a and b err independently; c errs after noticing the cancellation", vec![Fail(E(1)), Fail(E(2)), FailAfterCancel(E(3))]),
+        ("a panics, b and c err independently", vec![Fail(P), Fail(E(2)), Fail(E(3))]),
+        ("a errs; b panics after noticing the cancellation; c errs after noticing it", vec![Fail(E(1)), FailAfterCancel(P), FailAfterCancel(E(3))]),
+    ]
+}
+
+/// Returns (interleavings run, all explored, violation).
+fn thread_part(max_runs: u64) -> (u64, bool, Option<(String, serde_json::Value)>) {
+    use scope::verif::{VFailure, VScopeState};
+    let rt = tokio::runtime::Builder::new_current_thread().build().unwrap();
+    let _g = rt.enter();
+    let clock = ctx::ManualClock::new();
+    let root = ctx::test_root(&clock);
+    let mut total = 0;
+    let mut complete = true;
+    for (si, (name, bodies)) in thread_scenarios().into_iter().enumerate() {
+        let result: Arc<Mutex<Option<Option<VFailure>>>> = Default::default();
+        let (runs, all, fail) = crate::threads::explore_all(
+            || {
+                let st = VScopeState::new(&root);
+                let mut threads: Vec<Box<dyn FnOnce() + Send>> = vec![];
+                for b in &bodies {
+                    let task = st.task();
+                    let b = *b;
+                    threads.push(Box::new(move || {
+                        match b {
+                            TBody::Fail(f) => task.set_err(f),
+                            TBody::FailAfterCancel(f) => {
+                                while task.is_active() {
+                                    crate::threads::wait_point();
+                                }
+                                task.set_err(f);
+                            }
+                        }
+                        drop(task);
+                    }));
+                }
+                let bodies2 = bodies.clone();
+                let check: Box<dyn FnOnce(&crate::threads::Run) -> Option<String>> = Box::new(move |_run| {
+                    let got = st.finish();
+                    let independent: Vec<VFailure> = bodies2.iter().filter_map(|b| if let TBody::Fail(f) = b { Some(*f) } else { None }).collect();
+                    let any_panic = bodies2.iter().any(|b| matches!(b, TBody::Fail(VFailure::Panic) | TBody::FailAfterCancel(VFailure::Panic)));
+                    match got {
+                        None => Some("no failure was recorded although every task failed".into()),
+                        Some(VFailure::Panic) if any_panic => None,
+                        Some(g) if any_panic => Some(format!("a task panicked but the scope recorded {g:?}: the panic would not be re-raised")),
+                        // no panic anywhere: the recorded error is that of a task which failed on its own
+                        // (the others failed only after, and because, the scope had been cancelled)
+                        Some(g) if independent.contains(&g) => None,
+                        Some(g) => Some(format!("the scope recorded {g:?}, the error of a task that failed only after noticing the cancellation caused by an earlier failure ({independent:?})")),
+                    }
+                });
+                (threads, check)
+            },
+            max_runs,
+        );
+        let _ = &result;
+        total += runs;
+        complete &= all;
+        if let Some((prefix, what)) = fail {
+            return (total, false, Some((format!("[thread_interleaving] scenario '{name}': {what} (interleaving {prefix:?})"), json!({"harness": "c17-threads", "scenario": si, "interleaving": prefix}))));
+        }
+    }
+    (total, complete, None)
+}
+
 pub fn run(args: &Args) -> Report {
     let mut rep = Report::new("C17", "model_checking");
     if let Some(r) = &args.replay {
         let rp = &r["replay"];
+        if rp["harness"] == "c17-threads" {
+            // re-explores the scenario (a few hundred interleavings) and reports the first failing one
+            if let (_, _, Some((w, r))) = thread_part(2_000_000) {
+                rep.violations.push(Violation { key: "thread_interleaving".into(), what: w, replay: r });
+            }
+            return rep;
+        }
+        if rp["harness"] == "c17-blocking" {
+            if let (_, Some(b)) = blocking_runs(400) {
+                rep.violations.push(Violation { key: "blocking".into(), what: b, replay: rp.clone() });
+            }
+            return rep;
+        }
         let idx = rp["config"]["program_index"].as_u64().unwrap_or(0) as usize;
         let thorough = rp["config"]["thorough"].as_bool().unwrap_or(false);
         let ps = programs(thorough);
@@ -538,7 +639,7 @@ pub fn run(args: &Args) -> Report {
         return rep;
     }
     let thorough = args.tier == core::Tier::Thorough;
-    let ps = programs(thorough);
+    let ps = if std::env::var("VERIF_C17_ONLY_THREADS").is_ok() { programs(thorough).into_iter().take(1).collect() } else { programs(thorough) };
     let bound = args.tier.pick(2, 3);
     let budget = Duration::from_secs(args.tier.pick(45, 1200));
     let t0 = std::time::Instant::now();
@@ -579,6 +680,10 @@ pub fn run(args: &Args) -> Report {
             samples.push(json!({"program": format!("{:?}", ps[i]), "schedules": st.execs, "distinct_event_logs": st.distinct_obs}));
         }
     }
+    let (truns, tall, tviol) = thread_part(args.tier.pick(20_000, 2_000_000));
+    if let Some((w, r)) = tviol {
+        rep.violations.push(Violation { key: "thread_interleaving".into(), what: w, replay: r });
+    }
     let (bruns, bviol) = blocking_runs(args.tier.pick(30, 400));
     if let Some(b) = bviol {
         rep.violations.push(Violation { key: "blocking".into(), what: b, replay: json!({"harness":"c17-blocking"}) });
@@ -607,9 +712,10 @@ pub fn run(args: &Args) -> Report {
         "capped_by_time_budget": capped,
         "witnesses": wit.iter().map(|(k,v)| (k.to_string(), json!(v))).collect::<serde_json::Map<_,_>>(),
         "blocking_task_runs_uncontrolled_not_exhaustive": bruns,
+        "thread_level_interleavings_of_set_err": truns, "thread_level_all_interleavings_explored": tall,
     });
     rep.assumptions = vec![
-        "task switches happen only at awaits that return Pending (current-thread runtime); two threads inside non-awaiting code at once are not explored".into(),
+        "task level: switches happen only at awaits that return Pending (current-thread runtime); thread level: real threads calling TerminateGuard::set_err are interleaved at every acquisition of the error slot's mutex and right after the context is cancelled (all interleavings); other synchronous sections (guard drops) are not explored at thread level".into(),
         "blocking tasks run on real threads: those runs are oracle-checked samples, not exhaustive".into(),
     ];
     rep
